@@ -99,6 +99,10 @@ pub trait Check {
     fn repeats(&self) -> usize {
         1
     }
+    /// Upper bound on proptest's shrinking steps (expensive cases want fewer).
+    fn max_shrink_iters(&self) -> u32 {
+        4000
+    }
     fn run_random(&mut self, _part: &str, _case: &Case, _env: &mut Env) -> CaseOut {
         unimplemented!()
     }
@@ -265,7 +269,7 @@ pub fn run_worker(check: &mut dyn Check, tier: Tier, seed: u64, idx: u64, nworke
                     failure_persistence: None,
                     rng_algorithm: RngAlgorithm::ChaCha,
                     rng_seed: RngSeed::Fixed(0),
-                    max_shrink_iters: 4000,
+                    max_shrink_iters: check.max_shrink_iters(),
                     max_global_rejects: 1,
                     ..Config::default()
                 };
